@@ -191,6 +191,22 @@ def main(tier, seed, replay):
             nontriv.add(sig_hash(sc.text()))
         if len(samples) < 3 and C.get("timer_evaluations", 0) > 3:
             samples.append({"scenario": sc.text(), "counters": C, "seconds": round(secs, 3)})
+    if not replay and (tier == "thorough" or os.environ.get("VERIF_TSAN") == "1"):
+        # same scenario generator under -fsanitize=thread: data races in the queue / wait-notify protocol
+        from .rt import tsan_pass
+        try:
+            sub = scs[: (40 if tier == "quick" else 400)]
+            runs, reports, lock_order = tsan_pass(sub, f"%s.{tier}.{seed}" % PROPERTY)
+            counters["tsan_scenarios_completed"] = runs
+            counters["tsan_reports"] = len(reports)
+            counters["tsan_lock_order_reports"] = lock_order
+            for rep in reports[:5]:
+                hard.append((sub[0], [f"ThreadSanitizer: {rep['kind']} in {' <- '.join(f.split(' ', 1)[-1][:90] for f in rep['frames'][:3])}",
+                                      rep["text"]]))
+            if runs < len(sub) // 2:
+                inconc.append(f"only {runs} of {len(sub)} scenarios completed under ThreadSanitizer")
+        except Inconclusive as e:
+            inconc.append(f"tsan build: {e}")
     wall = time.time() - t0
     coverage = {"evaluations": len(results), "distinct_nontrivial": len(nontriv), "rule": RULE, "samples": samples or [{"scenario": scs[0].text()}],
                 "monitor_counters": counters, "inconclusive_notes": inconc[:5]}
